@@ -1132,6 +1132,8 @@ class HtmlWriter:
 
     def expand_r(self, text, index, cwd):
         end, addr_str, address, code_id, anchor, link_text = skoolmacro.parse_r(self.fields, text, index)
+        if code_id == self.code_id:
+            code_id = ''
         container = self.parser.get_container(address, code_id)
         if (not code_id or code_id == self.code_id) and not container:
             raise skoolmacro.MacroParsingError(f'Address not found: {addr_str}')
